@@ -22,7 +22,23 @@ Record obsv := mkObsv {
   o_lower : list Z; o_upper : list Z   (* action(sorted xe) ranges *)
 }.
 
+(* one evaluation point of a LONG spline (> 100000 intervals; the whole knot vector never enters Coq): the window the value
+   depends on -- knots t_{l-k+1} .. t_{l+k}, coefficients c_{l-k+1} .. c_l, l = the interval the harness located with
+   searchsorted on the object's knots -- and what the implementation returned there.  BSpline/WindowProofs.eval1_window:
+   for t_l < x <= t_{l+1} the model value and the Cox-de Boor spline of the whole knot vector are those of the window. *)
+Record wpt := mkWpt {
+  w_x : Q; w_l : Z; w_knots : list Q; w_coeff : list Q;   (* interval indices as Z: they exceed 10^5 (unary nat is too slow) *)
+  w_y : Q;            (* value(x)[0] at this point *)
+  w_mask : bool;      (* value(x)[1] *)
+  w_indx : Z;         (* intrv *)
+  w_row : list Q      (* bsplvn row *)
+}.
+
 Inductive case :=
+(* pts = the in-range points sorted by x; idx = intrv() of ALL sorted points (incl. the two outside the range); ranges =
+   (slot, lower, upper) of action() for every slot that occurs; nonempty = number of slots with upper >= lower;
+   outside = the masks returned at the two points outside the breakpoint range *)
+| CWin (k : nat) (pts : list wpt) (idx : list Z) (ranges : list (Z * (Z * Z))) (nonempty : nat) (outside : list bool)
 | CVal (opt : bkopt) (xs : list Q) (k : nat) (bkspread : Q) (coeff : list Q) (ob : obsv)
   (* a later call in a history on the SAME object: knots / coefficients were changed (in place or by assignment) after
      earlier evaluations; the answer must be the pure one for the current knots and coefficients *)
@@ -115,9 +131,46 @@ Definition model_eval (k : nat) (coeff : list Q) (ob : obsv) : bool :=
 Definition is_computed (o : bkopt) : bool :=
   match o with OBkpt _ => false | OPlaced _ => false | _ => true end.
 
-(* verdict: +1 model differs from the implementation; +2 the implementation contradicts the specification *)
+(* ---- long splines, point by point on windows *)
+Definition win_ok (k : nat) (p : wpt) : bool :=
+  (length (w_knots p) =? 2 * k)%nat && (length (w_coeff p) =? k)%nat && sortedQ (w_knots p) &&
+  Qltb (nthQ (w_knots p) (k - 1)) (w_x p) && Qle_bool (w_x p) (nthQ (w_knots p) k) && (Z.of_nat (k - 1) <=? w_l p)%Z.
+Definition win_model (k : nat) (p : wpt) : bool :=
+  close_rel rtol9 (w_y p) (eval_at (w_knots p) k (w_coeff p) (w_x p) (k - 1)) &&
+  all2 (close_rel rtol9) (w_row p) (bsplvn (w_knots p) k (w_x p) (k - 1)) && (w_indx p =? w_l p)%Z.
+Definition win_spec (k : nat) (p : wpt) : bool :=
+  close_rel rtol9 (w_y p) (splineq_left (w_knots p) (w_coeff p) k (w_x p)) && w_mask p &&
+  close rtol9 (sumQ (w_row p)) 1 && forallb (fun v => Qle_bool (- rtol9) v) (w_row p).
+Fixpoint first_posZ (v : Z) (idx : list Z) (p : Z) : option Z :=
+  match idx with [] => None | a :: r => if (a =? v)%Z then Some p else first_posZ v r (p + 1)%Z end.
+Fixpoint last_posZ (v : Z) (idx : list Z) (p : Z) (acc : option Z) : option Z :=
+  match idx with [] => acc | a :: r => last_posZ v r (p + 1)%Z (if (a =? v)%Z then Some p else acc) end.
+Fixpoint distinct_runs (idx : list Z) : nat :=
+  match idx with
+  | a :: ((b :: _) as r) => ((if (a =? b)%Z then 0 else 1) + distinct_runs r)%nat
+  | [_] => 1%nat
+  | [] => 0%nat
+  end.
+Fixpoint nondecr_natb (idx : list Z) : bool :=
+  match idx with a :: ((b :: _) as r) => (a <=? b)%Z && nondecr_natb r | _ => true end.
+(* the row ranges of action(): slot s = rows of the points whose interval is s + k - 1 (ActionProofs.action_ranges_spec) *)
+Definition win_ranges (k : nat) (idx : list Z) (ranges : list (Z * (Z * Z))) (nonempty : nat) : bool :=
+  nondecr_natb idx && (distinct_runs idx =? nonempty)%nat && (length ranges =? nonempty)%nat &&
+  forallb (fun r => let v := (fst r + Z.of_nat (k - 1))%Z in
+                    match first_posZ v idx 0, last_posZ v idx 0 None with
+                    | Some lo, Some hi => Z.eqb (fst (snd r)) lo && Z.eqb (snd (snd r)) hi
+                    | _, _ => false
+                    end) ranges.
+
+(* verdict: +1 model differs from the implementation; +2 the implementation contradicts the specification;
+   4 = (CWin) the harness's windows are not windows (inconsistent case data) *)
 Definition run_case (c : case) : Z :=
   match c with
+  | CWin k pts idx ranges nonempty outside =>
+      if negb (forallb (win_ok k) pts) then 4%Z else
+      let m_ok := forallb (win_model k) pts && win_ranges k idx ranges nonempty in
+      let s_ok := forallb (win_spec k) pts && forallb negb outside in
+      ((if m_ok then 0 else 1) + (if s_ok then 0 else 2))%Z
   | CVal opt xs k bkspread coeff ob =>
       let bk := o_bk ob in
       let xs_sorted := apply_perm 0 (o_perm ob) (o_xe ob) in
@@ -143,6 +196,9 @@ Definition run_cases : list case -> list Z := map run_case.
 (* diagnostic: which component failed (bit per component), used only in replay output *)
 Definition diagnose (c : case) : list bool :=
   match c with
+  | CWin k pts idx ranges nonempty outside =>
+      [forallb (win_ok k) pts; forallb (win_model k) pts; win_ranges k idx ranges nonempty;
+       forallb (win_spec k) pts; forallb negb outside; true]
   | CVal opt xs k bkspread coeff ob =>
       let bk := o_bk ob in
       let xs_sorted := apply_perm 0 (o_perm ob) (o_xe ob) in
